@@ -438,6 +438,7 @@ func gen(tier string, seed int64) []mon.Case {
 		add("c17/options/"+n, Static{Kind: "options", Platform: n})
 		add("c17/genvariants/"+n, Static{Kind: "genvariants", Platform: n})
 		add("c17/loadorder/"+n, Static{Kind: "loadorder", Platform: n})
+		add("c17/family/"+n, Static{Kind: "family", Platform: n})
 	}
 	add("c17/variant/cumulus_linux/root_login", Static{Kind: "variant", Platform: "cumulus_linux", Variant: "root_login"})
 	add("c17/variant/cumulus_linux/no-such-variant", Static{Kind: "missing-variant", Platform: "cumulus_linux"})
@@ -498,6 +499,31 @@ func gen(tier string, seed int64) []mon.Case {
 					d.Kind = "overlap"
 					d.Seg, d.NL, d.ReadSize = genSeg(r)
 					add(fmt.Sprintf("c17/overlap/%s/%s-as-%s#%02d", n, a, b, k), d)
+				}
+			}
+		}
+		// the prompt family: every other host-name spelling and every alternative prompt spelling
+		for _, n := range names {
+			f := families[n]
+			lv := keysOf(canon[n].Levels)
+			others := func(a string, rot int) []string {
+				var tg []string
+				for _, b := range lv {
+					if b != a {
+						tg = append(tg, b)
+					}
+				}
+				return rotate(tg, rot)
+			}
+			for hi, h := range f.Hosts[1:] {
+				a := lv[(hi+k)%len(lv)]
+				dyn(fmt.Sprintf("%s/host=%s", n, h), Dyn{Source: "asset", Platform: n, Host: h, Start: a, From: a, Targets: others(a, hi+k), CloseAt: lv[(hi+k+1)%len(lv)]})
+			}
+			for _, al := range altLevels(n) {
+				for i := range f.Alt[al] {
+					a := lv[(i+k)%len(lv)]
+					dyn(fmt.Sprintf("%s/alt=%s.%d", n, al, i+1), Dyn{Source: "asset", Platform: n, Host: f.Hosts[(i+k)%len(f.Hosts)], AltLevel: al, AltIdx: i + 1,
+						Start: a, From: a, Targets: others(a, i+k), CloseAt: al})
 				}
 			}
 		}
@@ -574,6 +600,8 @@ func run(c mon.Case) mon.Result {
 		return runGenVariants(s.Platform)
 	case "loadorder":
 		return runLoadOrder(s.Platform)
+	case "family":
+		return runFamily(s.Platform)
 	case "variant", "fixture", "missing-variant":
 		return runVariant(s)
 	}
@@ -598,6 +626,7 @@ func init() {
 			"generator preconditions checked by brute force with the definition's own patterns: the device's error line and every proper prefix of a canonical prompt are not accepted as a (different) prompt by the joined pattern; otherwise the session is inconclusive",
 			"the relation (level A's canonical prompt, other level B accepting it) of every shipped definition is pinned (= Appendix A 'also accepted by' plus the pairs inside classes of identical prompts); any change is reported. The overlaps themselves are a limitation of the definitions, not judged: a fresh session (empty cached level) opened on a device already in such a level takes it for the default desired level (observed and recorded per pinned overlap, see fresh_session_on_overlapping_level_witnesses)",
 			"load-order sequences (base-variant-base, variant-base, base-base on two hosts, variant-variant, variant-base-variant-base; by name for shipped variants, from bytes for generated ones) judge observable differences only: every result is re-compared with the independent reading after each later load, must keep its own host/transport/driver, and altering one result (levels, failure strings, steps, options, driver fields) must leave the others and fresh loads equal to the definition; a library-internal cache as such is not judged",
+			"prompt family (family.go, derived once from the unchanged shipped definitions): per platform 4-7 host-name spellings (letters, digits and each punctuation character of the host class that all levels of the platform admit) and 1-5 alternative spellings per level (config sub modes, changed-config marks, context lines); every member must be accepted by its own level and the joined pattern and by no other level than the pinned overlap relation lists (static, all members x all hosts), and one full session is driven per further host name and per alternative spelling per round",
 			"customised-levels sessions: the definition's own level objects get an alternative appended to their patterns in place (the canonical prompt with the hostname replaced by one of 4 hostile-but-legal names), refreshed by UpdatePrivileges() on the same driver or handed to a second driver through options.WithPrivilegeLevels after a first driver used the same map; judged by the ordinary oracle (joined pattern and per-level patterns consistent, on-open/on-close seen, all pairs reached)",
 			"two-drivers sessions: every option list is append(p.AsOptions(), user options) on ONE *Platform and all lists exist before any driver is built (1 or 3 user options per list; getter calls interleaved); each driver must carry its own transport / default level / failure strings / port and drive its own device; that AsOptions reflects later edits of the Platform's fields is not judged (not stated by the property)",
 			"generated variants define only non-empty sections; a section that is present but empty is outside the checked merge semantics",
